@@ -101,6 +101,14 @@ def solve(res: Result, timeout_ms=10000, procs=None):
                          "full": to_smt2(ax, ob.hyps, ob.goal) if len(sl) < len(ob.hyps) else None})
     t0 = time.time()
     res.status = discharge(jobs, timeout_ms=timeout_ms, procs=procs)
+    # second chance for time-outs (a loaded machine must not flip a verdict): triple budget, half the processes
+    expect = {ob.name: ob.expect for ob in res.obligations}
+    retry = [j for j in jobs if isinstance(j, dict) and res.status[j["name"]][0] == "unknown" and expect.get(j["name"]) == "unsat"]
+    if retry:
+        again = discharge(retry, timeout_ms=timeout_ms * 3, procs=max(1, (procs or 16) // 2))
+        for name, r in again.items():
+            if r[0] != "unknown":
+                res.status[name] = (r[0], r[1] + "/retry", r[2], r[3])
     res.wall = time.time() - t0
     return res
 
